@@ -108,6 +108,54 @@ Headers(cls) ==
 HeaderOk(want, got) == want = "any" \/ want = got
 
 -----------------------------------------------------------------------------
+\* Equivalent spellings --------------------------------------------------------------
+\* RFC 3986 (2.3, 6.2.2.2): a percent-encoded octet of an unreserved character
+\* (letter, digit, "-", ".", "_", "~") is equivalent to the character, so a
+\* segment spelt that way IS the plain segment and the request is a request
+\* for the plain path.  (Not so %2F, %5C, and the dot-segments "." and ".."
+\* however they are spelt: those stay odd.)  TLC cannot look inside strings,
+\* so the spellings are built here from splits  <<before, character, after>>
+\* of the vocabulary's segments and the encodings of the character (upper and
+\* lower case hex where the code has a letter digit).  For the placeholders the
+\* harness encodes the first / the last hex digit of the value.
+Codes == [ c \in {"0", "1", "2", "3", "4", "5", "7", "a", "c", "e", "i", "j", "l", "m", "n", "o", "p", "u", "x", "."} |->
+    CASE c = "0" -> {"%30"} [] c = "1" -> {"%31"} [] c = "2" -> {"%32"} [] c = "3" -> {"%33"}
+      [] c = "4" -> {"%34"} [] c = "5" -> {"%35"} [] c = "7" -> {"%37"}
+      [] c = "a" -> {"%61"} [] c = "c" -> {"%63"} [] c = "e" -> {"%65"} [] c = "i" -> {"%69"}
+      [] c = "j" -> {"%6A", "%6a"} [] c = "l" -> {"%6C", "%6c"} [] c = "m" -> {"%6D", "%6d"}
+      [] c = "n" -> {"%6E", "%6e"} [] c = "o" -> {"%6F", "%6f"} [] c = "p" -> {"%70"}
+      [] c = "u" -> {"%75"} [] c = "x" -> {"%78"} [] c = "." -> {"%2E", "%2e"} ]
+
+Splits ==
+    { <<"t", "i", "le">>, <<"ti", "l", "e">>, <<"d", "a", "ta">>, <<"n", "a", "mes">>, <<"", "n", "ames">>,
+      <<"entri", "e", "s">>, <<"e", "n", "tries">>, <<"iss", "u", "er">>,
+      <<"checkp", "o", "int">>, <<"", "c", "heckpoint">>,
+      <<"log", ".", "v3.json">>, <<"log.v3.", "j", "son">>, <<"witness.v0", ".", "json">>, <<"", "m", "irror.v0.json">>,
+      <<"", "0", "">>, <<"", "1", "">>, <<"", "2", "">>,
+      <<"00", "0", "">>, <<"", "0", "00">>, <<"00", "1", "">>, <<"", "0", "02">>,
+      <<"x00", "1", "">>, <<"", "x", "001">>, <<"x2", "3", "4">>, <<"0", "6", "7">>,
+      <<"000", ".", "p">>, <<"00", "0", ".p">>, <<"000.", "p", "">>, <<"002", ".", "p">>, <<"001", ".", "p">>, <<"067.", "p", "">>,
+      <<"1", "0", "0">>, <<"4", "4", "">>, <<"", "7", "">>, <<"25", "5", "">>,
+      <<"pl", "o", "g">>, <<"plog", "2", "">>, <<"w", "p", "">>, <<"mirr", "o", "r">> }
+\* "6" of "067" has no entry in Codes: that split is dropped below
+
+PlaceholderSpellings ==
+    { <<ph \o sfx, ph>> : ph \in IssuerIds \cup OriginHashes, sfx \in {"~first", "~last"} }
+
+SpellingPairs ==
+    UNION { IF t[2] \in DOMAIN Codes
+            THEN {<<t[1] \o e \o t[3], t[1] \o t[2] \o t[3]>> : e \in Codes[t[2]]}
+            ELSE {}
+          : t \in Splits }
+    \cup PlaceholderSpellings
+
+\* spelling |-> the plain segment it is equivalent to
+EncMap == TLCEval([s \in {pr[1] : pr \in SpellingPairs} |-> (CHOOSE pr \in SpellingPairs : pr[1] = s)[2]])
+Dec(s) == IF s \in DOMAIN EncMap THEN EncMap[s] ELSE s
+Norm(p) == [i \in DOMAIN p |-> Dec(p[i])]
+Spellings(seg) == {s \in DOMAIN EncMap : EncMap[s] = seg}
+
+-----------------------------------------------------------------------------
 \* Request grammar ---------------------------------------------------------------
 Insert(p, i, s) == SubSeq(p, 1, i) \o s \o SubSeq(p, i + 1, Len(p))
 Merge(p, i, sep) == SubSeq(p, 1, i - 1) \o <<p[i] \o sep \o p[i + 1]>> \o SubSeq(p, i + 2, Len(p))
@@ -183,7 +231,17 @@ EscapePaths(P) == {a \o t : a \in Anchors(P),
                                     <<"tile", "link-up", "decoy-out.txt">>, <<"issuer", "link-rel-out">>,
                                     <<"..", "D3", "checkpoint">>, <<"tile">>, <<"tile", "">> }}
 
+\* every layout path with one of its segments (of the prefix as well) spelt
+\* equivalently, in every way EncMap knows
+EquivPaths(P) ==
+    UNION { UNION { {[p EXCEPT ![i] = s] : s \in Spellings(p[i])} : i \in DOMAIN p } : p \in CleanPaths(P) }
+\* ... and a few with two segments spelt so
+EquivTwice(P) ==
+    UNION { UNION { {[q EXCEPT ![Len(q)] = s] : s \in Spellings(q[Len(q)])} : q \in {r \in {[p EXCEPT ![Len(P.pre) + 1] = t] : t \in Spellings(p[Len(P.pre) + 1])} : Len(r) > Len(P.pre) + 1} }
+          : p \in BasePaths(P) }
+
 GetPaths(P) == CleanPaths(P) \cup UNION {Mutations(p) : p \in BasePaths(P)} \cup TailPaths(P)
+               \cup EquivPaths(P) \cup EquivTwice(P)
 
 OtherMethods == {"HEAD", "POST", "PUT", "DELETE", "OPTIONS"}
 
@@ -210,6 +268,8 @@ PlainSegs ==
     UNION {UNION {SeqRange(P.pre \o x.rel) : x \in Layout(P.kind)} : P \in Pfxs}
     \cup UNION {SeqRange(t) : t \in PlainTails}
     )
+\* (the operators below take the path after Norm: an equivalent spelling of a
+\* plain segment is that segment)
 Odd(s) == s \notin PlainSegs
 \* odd segments that cannot leave a directory
 Harmless == {"", ".", "%2e"}
@@ -282,7 +342,8 @@ F(name, ok) == IF ok THEN {} ELSE {name}
 
 Verdict(rq, rs, exists(_, _)) ==
     LET h == rq.host
-        p == rq.path
+        p == Norm(rq.path)
+        literal == p = rq.path
         L == LayoutOf(h, p)
         ok200 == rs.status = 200
         isFile == rs.body.kind = "file"
@@ -294,12 +355,14 @@ Verdict(rq, rs, exists(_, _)) ==
     \* ... and nothing else (no listing, no generated page) inside a prefix
     \cup F("C19.OnlyFiles",
       (ok200 /\ rs.body.kind \in {"nonfile", "empty"} /\ rq.method # "HEAD" /\ (OwnsHost(h) \/ Under(h, p))) => FALSE)
-    \* a layout path yields exactly the file it names, and yields it when it exists
+    \* a layout path - however its unreserved characters are spelt - yields exactly
+    \* the file it names; the literal spelling yields it whenever it exists (an
+    \* equivalent spelling may be refused: the property fixes successful answers)
     \cup F("C19.LayoutExact",
       L.is =>
         /\ (ok200 /\ rs.body.kind # "absent") => (isFile /\ loc.root = L.root /\ loc.rel = L.file)
         /\ ok200 => exists(L.root, L.file)
-        /\ (rq.method = "GET" /\ exists(L.root, L.file)) => ok200)
+        /\ (literal /\ rq.method = "GET" /\ exists(L.root, L.file)) => ok200)
     \* ... with the prescribed content type, content encoding and cache policy
     \cup F("C19.LayoutHeaders",
       (L.is /\ ok200) =>
